@@ -30,6 +30,9 @@ def run_check(prop: str, tier: str, src_root: str, write: bool = True, quiet: bo
         rep.analysed["modules"] = len(model.modules)
         rep.analysed["classes"] = sum(len(m.classes) for m in model.modules.values())
         mod.check(model, rep, tier)
+        from .rules.common import python_slips_rule
+        with rep.isolated():
+            python_slips_rule(model, rep, prop)
         if rep.undecided:
             known = {(k.get("rule"), k.get("construct"), k.get("detail", "")) for k in __import__("qcolint.report", fromlist=["load_known"]).load_known() if k.get("property") == prop}
             definite = [v for v in rep.violations() if (v["rule"], v["construct"], v.get("detail", "")) not in known]
